@@ -35,6 +35,8 @@ class RNGMixin:
 
     @rng.setter
     def rng(self, rng: int | np.random.Generator | torch.Generator | None):
+        # name of the numpy bit generator to rebuild on reset (None: the default one)
+        self._rng_bit_generator = None
         if rng is None:
             self._rng_seed = None
             rng = np.random.default_rng()
@@ -43,6 +45,7 @@ class RNGMixin:
             rng = np.random.default_rng(rng)
         elif isinstance(rng, np.random.Generator):
             self._rng_seed = rng.bit_generator._seed_seq.entropy  # type:ignore ## get the seed
+            self._rng_bit_generator = type(rng.bit_generator).__name__
         elif isinstance(rng, torch.Generator):
             self._rng_seed = rng.initial_seed()
             rng = np.random.default_rng(self._rng_seed)
@@ -64,7 +67,12 @@ class RNGMixin:
     def _reset_rng(self):
         """Reset RNG to current seed, useful for reproducible iterations."""
         if self._rng_seed is not None:
-            self.rng = self._rng_seed  # sets rng and _rng_torch
+            name = getattr(self, "_rng_bit_generator", None)
+            if name is None or name == "PCG64":
+                self.rng = self._rng_seed  # sets rng and _rng_torch
+            else:
+                # a generator on another bit generator (MT19937, Philox, ...) restarts on the same one
+                self.rng = np.random.Generator(getattr(np.random, name)(self._rng_seed))
 
     def _rng_to_device(self, device: "DeviceType"):
         ## Could consider renaming this as just to, allowing super calls
